@@ -33,6 +33,10 @@ var framings = [][2]string{
 	{"<%= if (true) { %>t<% } ", " %>"},
 	{"<% for (x) in xs { %>t<% ", " } %>"},
 	{"<% let f = fn(x) { ", " } %>"},
+	{"<%= for (v) in ", " { %>"},
+	{"<%= if (", ") { %>"},
+	{"<%= a.b(", ") { %>x<% } %>"},
+	{"<%= {k: ", "} %>"},
 }
 
 // total: Parse returns; the result is a tree or an error with a message.
